@@ -48,7 +48,7 @@ def comparator_obligations(ctx, tf, clause):
     freq_ret = g.ret(p.func(FREQ))
     stmt_cls = p.find_class("Statement")
     for e, f in tf.filters:
-        key = "R-CMP|threshold|%s|%s" % (f.short, norm(e))
+        key = "R-CMP|threshold|%s|%s" % (f.short, f.key(e))
         if len(e.ops) != 1:
             obs.append(Ob(clause, "R-CMP", key, f.loc(e), False, "chained comparison on the threshold: %s" % norm(e)))
             continue
@@ -138,16 +138,16 @@ def sink_obligations(ctx, tf, clause):
                 continue
             # memo-guard idiom: a test in shex_graph that only decides whether a stage is (re)launched
             if f.qual == SRC[0] and isinstance(owner, ast.If) and _only_launches(owner):
-                obs.append(Ob(clause, "R-FLOW", "R-FLOW|threshold-control|%s|%s" % (f.short, norm(test)[:60]), f.loc(test), True,
+                obs.append(Ob(clause, "R-FLOW", "R-FLOW|threshold-control|%s|%s" % (f.short, f.key(test)[:60]), f.loc(test), True,
                               "threshold takes part in a memo guard that only (re)launches a stage"))
                 continue
-            obs.append(Ob(clause, "R-FLOW", "R-FLOW|threshold-control|%s|%s" % (f.short, norm(test)[:60]), f.loc(test), False,
+            obs.append(Ob(clause, "R-FLOW", "R-FLOW|threshold-control|%s|%s" % (f.short, f.key(test)[:60]), f.loc(test), False,
                           "the threshold influences control flow at `%s` in %s, which is neither the range check nor a "
                           "candidate filter" % (norm(test)[:60], f.short)))
     for k, (e, f) in g.expr_index.items():
         if isinstance(e, (ast.BinOp, ast.AugAssign)) and ("e", k) in tf.T and f.qual not in tf.validators:
             if any(("e", id(x)) in tf.T for x in (getattr(e, "left", None), getattr(e, "right", None)) if x is not None):
-                obs.append(Ob(clause, "R-FLOW", "R-FLOW|threshold-arithmetic|%s|%s" % (f.short, norm(e)[:60]), f.loc(e), False,
+                obs.append(Ob(clause, "R-FLOW", "R-FLOW|threshold-arithmetic|%s|%s" % (f.short, f.key(e)[:60]), f.loc(e), False,
                               "arithmetic on the threshold: `%s`" % norm(e)[:60]))
     stmt_like = {p.find_class("Statement").qual, p.find_class("Shape").qual, p.find_class("FixedPropChoiceStatement").qual}
     for e, f in g.calls:
@@ -155,7 +155,7 @@ def sink_obligations(ctx, tf, clause):
         if cs is not None and cs.kind == "ctor" and cs.recv_types.qual in stmt_like:
             for a in list(e.args) + [k.value for k in e.keywords]:
                 if g.expr_tainted(a, tf.T):
-                    obs.append(Ob(clause, "R-FLOW", "R-FLOW|threshold-into-model|%s|%s" % (f.short, norm(a)[:40]), f.loc(e), False,
+                    obs.append(Ob(clause, "R-FLOW", "R-FLOW|threshold-into-model|%s|%s" % (f.short, f.key(a)[:40]), f.loc(e), False,
                                   "a %s field is computed from the threshold (`%s`)" % (cs.recv_types.name, norm(a)[:40])))
     if not obs or all(o.ok for o in obs):
         obs.append(Ob(clause, "R-FLOW", "R-FLOW|threshold-sinks", p.func(SRC[0]).loc(), True,
